@@ -134,6 +134,12 @@ func checkCase(t reporter, s *caseSpec, tables []ceremony.VerifC17Shard) {
 		outs = append(outs, &o)
 	}
 
+	// (vii) a node that followed an abandoned branch, was reset (and possibly restarted) before the winning branch
+	if s.Reset != nil {
+		o := resetVariant(s, ledger, blocks1)
+		outs = append(outs, &o)
+	}
+
 	var diffs []string
 	for _, o := range outs[1:] {
 		if d := difference(s, &first, o); d != "" {
@@ -149,6 +155,9 @@ func checkCase(t reporter, s *caseSpec, tables []ceremony.VerifC17Shard) {
 		t.Fatalf("case:\n%s\nresult:\n%s\nSTATEMENT BROKEN: %s", s.describe(), first.Canon, v)
 	}
 	s.record(&first, tables)
+	if s.Reset != nil {
+		s.recordReset(blocks1)
+	}
 }
 
 // record counts the classes of a checked case and registers it as non-trivial
@@ -635,6 +644,7 @@ func TestEpochReproducible(t *testing.T) {
 		parts := drawParticipation(t, s)
 		s.Msgs = buildMessages(s, tables, parts)
 		drawArrival(t, s)
+		drawReset(t, s, tables)
 		checkCase(t, s, tables)
 	})
 }
